@@ -152,10 +152,10 @@ def run_schedules(ctx, sched, tags='verif', label=None):
     return trace
 
 
-def validate(ctx, trace, module='TraceAbs.tla', cfg='TraceAbs.cfg', timeout=900):
+def validate(ctx, trace, module='TraceAbs.tla', cfg='TraceAbs.cfg', timeout=900, strict=False):
     """TLC trace validation of one trace file. Returns the RESULT record."""
     nlines = sum(1 for _ in open(trace))
-    rc, out = tlc(ctx, module, cfg, workers=1, timeout=timeout, env={'TRACE': trace})
+    rc, out = tlc(ctx, module, cfg, workers=1, timeout=timeout, env={'TRACE': trace, 'STRICT': '1' if strict else '0'})
     m = re.search(r'<<"RESULT", "(.*)">>', out)
     if not m or 'Model checking completed. No error has been found.' not in out:
         raise Infra('trace validation failed on %s (%s):\n%s' % (trace, cfg, out[-3000:]))
